@@ -443,6 +443,10 @@ def apply_contract(ip: Interp, c, recv, args, kwargs, n):
     result = _pure_result(ip, c, env, short) if c.pure else mk_symbolic(ip, c.ret, f'{short}.result')
     env['retval' if 'result' in c.sig else 'result'] = result
     for _tag, clause in c.clauses():
+        if _tag == 'local':
+            # proved for the function itself, not handed to its callers (quantified facts no caller needs:
+            # they would only cost the solver its ability to find counter-models at the call sites)
+            continue
         if _assign_form(ip, clause, env, c.modifies):
             continue
         p.assume(spec_eval_env(ip, clause, env))
@@ -664,7 +668,7 @@ def _run_path(ip: Interp, c: Contract, fn: ast.FunctionDef, cls):
     for tag, clause in c.clauses():
         v = sub.ev(ast.parse(clause.strip(), mode='eval').body)
         t = sub.truth(v)
-        p.oblige('post', t if z3.is_expr(t) else z3.BoolVal(bool(t)), fn, f'postcondition: {clause}', tag=tag)
+        p.oblige('post', t if z3.is_expr(t) else z3.BoolVal(bool(t)), fn, f'postcondition: {clause}', tag='property' if tag == 'local' else tag)
 
 
 def _frame_check(ip: Interp, c: Contract, fn):
